@@ -201,7 +201,7 @@ def execute(record, trace=False):
                     readers.append(r)
                     actors.append(r)
             dl = s.run_actors(actors)
-            st = dict(s.stats)
+            st = s.full_stats()
             st.update(s.k.counters)
             st["events"] = s.k.seq
             st["switches"] = s.k.switches
